@@ -1,6 +1,6 @@
 (* C02 correspondence: spin<->binary conversions and edits through live views. *)
 From Coq Require Import List ZArith QArith Qcanon Bool Arith.
-From Dimod Require Import Base.Util Model.Poly Model.HPoly.
+From Dimod Require Import Base.Util Model.Poly Model.HPoly Model.View.
 Import ListNotations.
 Open Scope Qc_scope.
 
@@ -44,6 +44,20 @@ Definition old_sample (d : dir) (vars : list label) (s : list (label * Qc)) : sa
   fun v => let x := sample_of_list s v in
            if existsb (Nat.eqb v) vars then back_value d x else x.
 
+Definition vdir_of (d : dir) : vdir := match d with S2B => BinOverSpin | B2S => SpinOverBin end.
+
+(* the formula-level model of vartypeview.py for the writes it translates itself *)
+Definition formula_ok (n : nat) (d : dir) (vars : list label) (o : vop) (before after : obs) : bool :=
+  match vars with
+  | [] => true        (* view and base share the vartype: plain delegation *)
+  | _ =>
+      match o with
+      | VAddLin v b => poly_coeff_eqb n (view_add_linear (vdir_of d) v b (obs_poly before)) (obs_poly after)
+      | VAddQuad u v b => poly_coeff_eqb n (view_add_quadratic (vdir_of d) u v b (obs_poly before)) (obs_poly after)
+      | _ => true
+      end
+  end.
+
 Definition check (c : case) : bool :=
   match c with
   | Conv n d vars before after samples =>
@@ -58,4 +72,5 @@ Definition check (c : case) : bool :=
       poly_coeff_eqb n (convert (inv_dir d) vars (apply_vop o (convert d vars (obs_poly base_before))))
                      (obs_poly base_after)
       && poly_coeff_eqb n (convert d vars (obs_poly base_after)) (obs_poly view_after)
+      && formula_ok n d vars o base_before base_after
   end.
